@@ -48,7 +48,10 @@ DoValidate(ks, i) ==   \* node i of the linked list, parent is i-1
 ImplAccepts(x) == ValidateOK(x) /\ PolicyOK(x) /\ LookupOK(x) /\ DoValidate(x.kinds, 1)
 (* does a failing call leave a graph entry behind? (observable only through getters; not demanded) *)
 
-Init == v \in {x \in Vectors : Valid(x)}
+KindSeqs == UNION {[1..n -> Kinds] : n \in 0..MaxLen}
+Init == \E ks \in KindSeqs, f \in Forms, p \in 0..MaxLen, e \in Exist, pl \in Pols :
+           /\ v = [kinds |-> ks, form |-> f, pos |-> p, exist |-> e, pol |-> pl]
+           /\ Valid(v)
 Next == UNCHANGED v
 Spec == Init /\ [][Next]_v
 
